@@ -238,6 +238,10 @@ func condFacts(cond ssa.Value, truth bool, bf *blockFacts) {
 					// x != 0 for a value known to be non-negative means x >= 1
 					if c == 0 && curFI.intLB(x, curBlock, 0) >= 0 {
 						bf.ints = append(bf.ints, intFact{k, 1})
+					} else {
+						// a hole in the value range: the lower bound of x may not be attainable, so a
+						// symbolic guard that uses x cannot support a definite claim
+						curFI.keysOf(x, curBlock, 0, &bf.unkInts)
 					}
 				}
 				var deps, calls []ssa.Value
@@ -304,8 +308,13 @@ func applyLen(s ssa.Value, op token.Token, c int, bf *blockFacts) {
 		bf.lens = append(bf.lens, lenFact{s, k, c + 1})
 	case token.EQL:
 		bf.lens = append(bf.lens, lenFact{s, k, c})
-	case token.LSS, token.LEQ, token.NEQ:
-		// upper bound / disequality: gives no lower bound but is recognised (complete knowledge)
+	case token.NEQ:
+		// len(s) != 0 means len(s) >= 1
+		if c == 0 {
+			bf.lens = append(bf.lens, lenFact{s, k, 1})
+		}
+	case token.LSS, token.LEQ:
+		// upper bound: gives no lower bound but is recognised (complete knowledge)
 	}
 }
 
